@@ -36,6 +36,11 @@ def run(tier):
             plans.append(dict(what='tiny limit %d: 1- and 2-byte bodies' % L, impl=impl,
                               cfg={'ping_interval': 8, 'ping_timeout': 4, 'max_buf': L}, nslots=1,
                               scripts=tiny_scripts(L)))
+        for L in (1, 2, 3, 5, 6, 7):
+            plans.append(dict(what='tiny limit %d on websocket: the probe itself (6 characters) and '
+                                   'one-character frames, upgrade attempted and websocket-only' % L,
+                              impl=impl, cfg={'ping_interval': 8, 'ping_timeout': 4, 'max_buf': L},
+                              nslots=1, scripts=tiny_ws_scripts()))
         plans.append(dict(what='packet counts 0..18 per body', impl=impl,
                           cfg={'ping_interval': 8, 'ping_timeout': 4}, nslots=1,
                           scripts=count_scripts()))
@@ -97,6 +102,22 @@ def size_scripts(seed, L, big=True):
 def tiny_scripts(L):
     return [[{'op': 'open'}, {'op': 'postsz', 's': 1, 'rel': rel, 'tiny': True},
              {'op': 'poll', 's': 1}] for rel in (-L + 1, 0, 1) if L + rel >= 1]
+
+
+def tiny_ws_scripts():
+    return [
+        [{'op': 'open'}, {'op': 'upgrade', 's': 1}, {'op': 'wsframe', 's': 1, 'f': 'PINGprobe'},
+         {'op': 'poll', 's': 1}, {'op': 'wsframe', 's': 1, 'f': 'UPGRADE'},
+         {'op': 'wsframe', 's': 1, 'f': 'm1'}, {'op': 'send', 's': 1},
+         {'op': 'wsframe', 's': 1, 'f': 'PONG'}, {'op': 'poll', 's': 1}],
+        [{'op': 'open'}, {'op': 'upgrade', 's': 1}, {'op': 'wsframe', 's': 1, 'f': 'UPGRADE'},
+         {'op': 'wsframe', 's': 1, 'f': 'PINGprobe'}, {'op': 'poll', 's': 1}],
+        [{'op': 'openws'}, {'op': 'wsframe', 's': 1, 'f': 'PONG'},
+         {'op': 'wsframe', 's': 1, 'f': 'm1'}, {'op': 'send', 's': 1},
+         {'op': 'wsframe', 's': 1, 'f': 'PONG'}],
+        [{'op': 'openws'}, {'op': 'wsframe', 's': 1, 'f': 'PINGprobe'},
+         {'op': 'wsframe', 's': 1, 'f': 'CLOSE'}],
+    ]
 
 
 def count_scripts():
